@@ -13,7 +13,8 @@ DEMO_CMD=$(python3 -c "import json;print(json.load(open('$OUT/meta.json'))['demo
 # 1. existing suite with the patch (no demo file present)
 go build ./... && go test -vet=off -count=1 ./... > /tmp/seeds/$ID.tests.log 2>&1; T=$?
 # place demo files
-for f in $OUT/*_test.go; do [ -f "$f" ] && cp $f lib/; done
+for f in $OUT/*_test.go; do [ -f "$f" ] && { if grep -q "^package main" $f; then cp $f .; else cp $f lib/; fi; }; done
+for f in $OUT/lib/*_test.go; do [ -f "$f" ] && cp $f lib/; done
 [ -d $OUT/demo ] && cp -r $OUT/demo internal/
 bash -c "$DEMO_CMD" > /tmp/seeds/$ID.demo_with.log 2>&1; W=$?
 git apply -R $OUT/patch.diff
@@ -21,6 +22,7 @@ bash -c "$DEMO_CMD" > /tmp/seeds/$ID.demo_without.log 2>&1; WO=$?
 git checkout -q -- . ; git clean -fdq
 echo "existing_tests_with_patch_rc=$T demo_with_patch_rc=$W demo_without_patch_rc=$WO"
 cp $OUT/patch.diff $DST/; cp $OUT/*_test.go $DST/ 2>/dev/null; cp $OUT/README.txt $DST/ 2>/dev/null
+[ -d $OUT/lib ] && mkdir -p $DST/lib && cp $OUT/lib/*_test.go $DST/lib/ 2>/dev/null
 python3 - <<PY
 import json
 m=json.load(open('$OUT/meta.json'))
